@@ -579,7 +579,7 @@ def model_agrees(model, real):
 # --------------------------------------------------------------------------------------------------
 
 def cases(tier: str) -> list:
-    return ["marathon"] + list(range(64 if tier == "quick" else 640))
+    return ["marathon"] + list(range(96 if tier == "quick" else 640))
 
 
 def evaluate(x, do_cli=True, do_cli_err=True) -> dict:
